@@ -150,3 +150,33 @@ impl MerkleTreeChangeset {
             final(self).original_tree_length == old(self).original_tree_length, final(self).original_tree_fork == old(self).original_tree_fork
     { unimplemented!() }
 }
+
+// ---- ASSUMED tree read contracts (to be replaced by proofs in unit merkle) -------------------------------------
+pub mod tree_model {
+use vstd::prelude::*;
+/// byte offset of block i in the data file as recorded by the stored tree nodes (ghost model of the tree file);
+/// ASSUMPTION: the stored node sizes are consistent, i.e. offsets are monotone
+pub uninterp spec fn blk_off(i: int) -> int;
+#[verifier::external_body]
+pub broadcast proof fn axiom_blk_off_mono(i: int, j: int)
+    requires 0 <= i <= j
+    ensures 0 <= #[trigger] blk_off(i) <= #[trigger] blk_off(j) <= 0xff_ffff_ffff_ffff {}
+} // mod tree_model
+pub use tree_model::*;
+pub open spec fn tree_instr(ins: Seq<StoreInfoInstruction>) -> bool { forall|k: int| 0 <= k < ins.len() ==> (#[trigger] ins[k]).store == Store::Tree }
+
+impl MerkleTree {
+    #[verifier::external_body]
+    pub fn byte_range(&mut self, hypercore_index: u64, infos: Option<&[StoreInfo]>) -> (r: Result<Either<Box<[StoreInfoInstruction]>, NodeByteRange>, HypercoreError>)
+        ensures *final(self) == *old(self),
+            r is Ok && r->Ok_0 is Left ==> r->Ok_0->Left_0@.len() > 0 && tree_instr(r->Ok_0->Left_0@),
+            r is Ok && r->Ok_0 is Right ==> hypercore_index < old(self).length && r->Ok_0->Right_0.index == blk_off(hypercore_index as int)
+                && r->Ok_0->Right_0.index + r->Ok_0->Right_0.length == blk_off(hypercore_index + 1)
+    { unimplemented!() }
+    #[verifier::external_body]
+    pub fn byte_offset(&mut self, hypercore_index: u64, infos: Option<&[StoreInfo]>) -> (r: Result<Either<Box<[StoreInfoInstruction]>, u64>, HypercoreError>)
+        ensures *final(self) == *old(self),
+            r is Ok && r->Ok_0 is Left ==> r->Ok_0->Left_0@.len() > 0 && tree_instr(r->Ok_0->Left_0@),
+            r is Ok && r->Ok_0 is Right ==> hypercore_index < old(self).length && r->Ok_0->Right_0 == blk_off(hypercore_index as int)
+    { unimplemented!() }
+}
